@@ -364,7 +364,7 @@ func instances(s *srv) []*inst {
 // oracle helpers
 
 var dataMarks = [][]byte{[]byte(httplib.Marker), []byte(`"items"`), []byte(`"url"`), []byte("ftyp"), []byte("moof"),
-	[]byte("goroutine"), []byte("Types of profiles available"), []byte("paths{"), []byte(`"logLevel"`), []byte(`"version"`)}
+	[]byte("goroutine"), []byte("Types of profiles available"), []byte("paths{"), []byte(`"logLevel"`), []byte(`"recordPath"`), []byte(`"version"`)}
 
 func hasMarker(b []byte) bool {
 	for _, m := range dataMarks {
@@ -406,12 +406,12 @@ func main() {
 	r := vcommon.Start("C04", "exploration")
 	thorough := r.Thorough()
 	fdl := httplib.RaiseFDLimit()
-	workers := 3000
+	workers := 4000
 	if v := os.Getenv("C04_WORKERS"); v != "" {
 		fmt.Sscan(v, &workers)
 	}
-	if int(fdl) < 2*workers+600 {
-		workers = (int(fdl) - 600) / 2
+	if int(fdl) < 4*workers+800 { // client + server side of every active and every idle connection
+		workers = (int(fdl) - 800) / 4
 	}
 	if workers < 50 {
 		vcommon.Harness("file descriptor limit %d too low", fdl)
@@ -443,8 +443,15 @@ func main() {
 					c := &w.creds[ci]
 					for fi := range w.fwds {
 						f := &w.fwds[fi]
-						if !thorough && !in.full && !(coreCred(c) && fi == 0) {
-							continue
+						if !thorough {
+							// quick tier: full product on the registered method (address variant x-real-ip only
+							// with the core credentials); core credentials from the direct address elsewhere
+							if !in.full && !(coreCred(c) && fi == 0) {
+								continue
+							}
+							if in.full && fi == 2 && !coreCred(c) {
+								continue
+							}
 						}
 						k := kase{w: w, in: in, c: c, f: f}
 						ip := effectiveIP(w.trusted, f.ip)
@@ -467,7 +474,7 @@ func main() {
 	r.Rule = "all (auth world: named users / default anonymous users / JWT with and without query tokens, x trusted proxy on|off) x server " +
 		"x registered route (from the gin router) and unregistered/slash-twin paths x 8 method variants x credential placement x user or token " +
 		"permission set x client address header; quick tier: the full credential x address product only on the registered method of each route, " +
-		"a 6-credential core on the other methods; distinct = (server, route, method variant, admitted?, status)"
+		"a 6-credential core from the direct address on the other methods, the x-real-ip address only with the core credentials; distinct = (server, route, method variant, admitted?, status)"
 
 	client := httplib.NewClient(workers)
 	defer client.Close()
@@ -720,6 +727,9 @@ func judge(r *vcommon.Run, k kase, id int, resp httplib.Resp) {
 	}
 
 	// not admitted
+	if id%97 == 1 {
+		r.Sample(map[string]any{"case": describe(k, id), "status": st, "body": vcommon.Short(string(resp.Body), 80)})
+	}
 	switch {
 	case st == http.StatusUnauthorized:
 		if !envelopeOnly(resp.Body) {
